@@ -102,12 +102,20 @@ def detailOf (e : Err) : Option Bytes := match asOci e with | some w => w.2.2 | 
 /-- The code `MarshalError` sends: the error's code, `UNKNOWN` when it has none. -/
 def wireCode (e : Err) : Bytes := if codeOf e = [] then codeUnknown else codeOf e
 
+/-- The error's own HTTP status as `MarshalError` accepts it: an error status (4xx, 5xx), else 500
+(fix F29: any status used to be passed on, so an error could be written with a 1xx or 2xx status, which a
+client takes for success, or with one `net/http` refuses). -/
+def ownStatus (e : Err) : Nat :=
+  match asHTTP e with
+  | some s => if 400 ≤ s ∧ s ≤ 599 then s else 500
+  | none => 500
+
 /-- The status `MarshalError` chooses: the table's status for the code; for codes
-without a row the error's own HTTP status, else 500. -/
+without a row the error's own HTTP status when that is an error status, else 500. -/
 def wireStatus (table : List (Bytes × Nat)) (e : Err) : Nat :=
   match tableStatus table (wireCode e) with
   | some s => s
-  | none => (asHTTP e).getD 500
+  | none => ownStatus e
 
 /-- What `MarshalError` puts on the wire: status and the single `WireError`.
 `compact` is `encoding/json`'s compaction of the raw detail. -/
